@@ -133,13 +133,30 @@ def attr_cases(draw):
 # ------------------------------------------------------------------------------------------------
 # clause 2: history independence (rule-based state machine)
 # ------------------------------------------------------------------------------------------------
+class _Interrupted(Exception):
+    pass
+
+
 class SharedModelHistory:
     """One shared model; after every call the result must be bit-identical to the same call on a fresh model."""
 
     def __init__(self, first, ctx):
         self.cfg = first["cfg"]
         self.ctx = ctx
-        self.model = mk_model(self.cfg)
+        # the shared model's gamma callback is the configured one behind a pass-through wrapper that the harness can arm to raise at its
+        # k-th invocation: a rate() call that is INTERRUPTED part-way (rule interrupted_call); unarmed it changes no number
+        inner = mk_model(self.cfg).gamma
+        self.trip = {"armed": False, "after": 0, "count": 0}
+        trip = self.trip
+
+        def gamma(*a, **kw):
+            if trip["armed"]:
+                trip["count"] += 1
+                if trip["count"] > trip["after"]:
+                    raise _Interrupted("gamma callback raised (harness)")
+            return inner(*a, **kw)
+
+        self.model = mk_model(self.cfg, gamma=gamma)
         self.nontrivial = False
         self.labels = ["kind:" + self.cfg["kind"]]
         self.prev = None
@@ -150,6 +167,23 @@ class SharedModelHistory:
         return gen.configs().map(lambda cfg: {"op": "init", "cfg": cfg})
 
     def apply(self, job):
+        if job.get("interrupted") is not None:
+            # a valid rate() call that does not complete: the user's gamma callback raises at its k-th invocation.  Whatever the call
+            # leaves behind, it must not change what LATER calls on this model (or on any other model) return.
+            self.trip.update(armed=True, after=int(job["interrupted"]), count=0)
+            try:
+                run_job(self.model, job)
+                self.labels.append("interrupted-call:completed") if "interrupted-call:completed" not in self.labels else None
+            except _Interrupted:
+                self.labels.append("interrupted-call:raised") if "interrupted-call:raised" not in self.labels else None
+            except Exception as e:  # noqa: BLE001
+                raise Violation(f"raised:{type(e).__name__}", f"{self.cfg['kind']} rate() with a raising gamma callback raised {type(e).__name__}: {e}") from None
+            finally:
+                self.trip["armed"] = False
+            self.ctx.called()
+            if snapshot(self.model) != self.before:
+                raise Violation("attr-changed-by-interrupted-call", f"{self.cfg['kind']} model attributes changed by a rate() call whose gamma callback raised")
+            return
         if job.get("out_of_range"):
             # an earlier call with absurd numbers (far outside the supported range; it may raise): whatever it does, it must not
             # change what LATER calls on this model return
@@ -192,6 +226,8 @@ def _absurd(h):
 
 SharedModelHistory.RULES = {
     "out_of_range_call": _absurd,
+    "interrupted_call": lambda h: st.tuples(jobs_for(h.cfg, max_teams=4, max_size=3), st.integers(0, 5)).map(
+        lambda jk: dict(jk[0], op="rate", call=jk[0].get("call", {}), interrupted=jk[1])),
     "rate_or_predict": lambda h: jobs_for(h.cfg, max_teams=4, max_size=3),
     "rate_with_limit": lambda h: jobs_for(h.cfg, max_teams=3, max_size=2).map(
         lambda j: dict(j, op="rate", call=dict(j.get("call", {}), limit_sigma=True))),
